@@ -33,4 +33,7 @@ def sumI : List Int → Int
   | [] => 0
   | x :: xs => x + sumI xs
 
+/-- a numpy boolean used in arithmetic / `.astype(int)` -/
+def boolToRat (b : Bool) : Rat := if b then 1 else 0
+
 end ElexModel
